@@ -41,7 +41,7 @@ class NpShim:
     def zeros(shape, dtype=None, **kw):
         if symbolic_active() and dtype in (None, float, _np.float64):
             a = _np.empty(shape, dtype=object)
-            a.fill(0.0)
+            a.fill(_np.float64(0.0))   # numpy scalars: 1/0 is inf with a warning as in a float array, not an exception
             return a
         return _np.zeros(shape, dtype=dtype or float, **kw)
 
@@ -49,7 +49,7 @@ class NpShim:
     def ones(shape, dtype=None, **kw):
         if symbolic_active() and dtype in (None, float, _np.float64):
             a = _np.empty(shape, dtype=object)
-            a.fill(1.0)
+            a.fill(_np.float64(1.0))
             return a
         return _np.ones(shape, dtype=dtype or float, **kw)
 
@@ -57,7 +57,7 @@ class NpShim:
     def zeros_like(a, dtype=None, **kw):
         if symbolic_active() and dtype in (None, float, _np.float64):
             r = _np.empty(_np.shape(a), dtype=object)
-            r.fill(0.0)
+            r.fill(_np.float64(0.0))
             return r
         return _np.zeros_like(a, dtype=dtype, **kw)
 
